@@ -8,7 +8,7 @@ KINDS = ["same", "copy", "reload", "fired", "fired", "moved", "samedeg", "samede
 def gen(rng, tier):
     cases = []
     for _ in range(300 if tier == "quick" else 8000):
-        G, fam = common.random_connected_graph(rng, 1, 6 if tier == "quick" else 7)
+        G, fam = common.random_connected_graph(rng, 1, 6 if tier == "quick" else 7, large_ok=True)
         n = G["n"]; D1 = common.random_divisor(rng, G); kind = rng.choice(KINDS); G2 = G; D2 = list(D1)
         if kind in ("fired", "moved"):
             D2 = common.lap_apply(G, D1, [rng.randint(-5, 5) for _ in range(n)])
